@@ -4,7 +4,7 @@ from pathlib import Path
 LIBS = ["libavoid"]
 HARNESS = "harness/c10.cpp"
 DRIVER_MODE = "c10"
-LEAN_MODULES = ["AdaptaVerif.Props.C10"]
+LEAN_MODULES = ["AdaptaVerif.Props.C10", "AdaptaVerif.Props.C10Tie"]
 # COLA_ASSERT throws vpsc::CriticalFailure instead of calling abort() (see harness/c11.cpp)
 EXTRA_FLAGS = ["-DUSE_ASSERT_EXCEPTIONS"]
 LEVEL = "translation_validation"
@@ -51,6 +51,17 @@ def _known_ids():
                 if e.get("status") == "known"}
     except Exception:
         return set()
+
+
+def regenerate(ROOT, REPO):
+    """The scalar kernels of NudgingShiftSegment (lowPoint/highPoint, zigzag, immovable, lowC/highC, order, fixedOrder,
+    overlapsWith, canAlignWith, hasCheckpointAtPosition, createSolverVariable) and the id / weight / CHANNEL_MAX constants are
+    regenerated from orthogonal.cpp by cpp2lean on every run (Gen/NudgeK.lean) and proved equal to the hand models of
+    Model/NudgeRegion.lean in Props/C10Tie.lean"""
+    import sys
+    sys.path.insert(0, str(Path(ROOT) / "tools" / "cpp2lean"))
+    import jobs
+    return jobs.regenerate(["nudgek"], Path(ROOT), Path(REPO))
 
 
 def plan(tier, seed, searching):
